@@ -99,3 +99,50 @@ def lemma_header_names_the_same_method_and_target_as_the_body(repo):
 
 
 LEMMAS = [lemma_header_names_the_same_method_and_target_as_the_body]
+
+# ---- _iparam_*: what goes into INSTANCENAME / CLASSNAME elements of intrinsic calls is a name WITHOUT host and
+# namespace (the namespace travels in LOCALNAMESPACEPATH), the caller's own object is left as it was, and a wrong
+# argument type fails locally with TypeError instead of producing an invalid document.
+SAMEC = 'result.classname == self.classname and result.host == self.host and result.namespace == self.namespace'
+copy_i = Contract('pywbem/_cim_obj.py::CIMInstanceName.copy', returns=Ref('CIMInstanceName'), trusted=True,
+                  ensures=[('fresh-copy', 'fresh(result) and ' + SAMEC)], notes='A-CIMOBJ: copy() (C05 bounded)')
+copy_c = Contract('pywbem/_cim_obj.py::CIMClassName.copy', returns=Ref('CIMClassName'), trusted=True,
+                  ensures=[('fresh-copy', 'fresh(result) and ' + SAMEC)])
+init_c = Contract('pywbem/_cim_obj.py::CIMClassName.__init__', trusted=True, raises={},
+                  ensures=[('attributes', 'self.classname == classname and self.host is host and self.namespace is namespace')])
+IPARAM_CALLEES = {'CIMInstanceName.copy': copy_i, 'CIMClassName.copy': copy_c, 'CIMClassName.__init__': init_c}
+UNTOUCHED = ('implies(isinstance(old({a}), (CIMClassName, CIMInstanceName)), old({a}).host == old(old({a}).host) '
+             'and old({a}).namespace == old(old({a}).namespace))')
+for fn, arg, kinds in (('_iparam_objectname', 'objectname', ('CIMInstanceName', 'CIMClassName', 'str')),
+                       ('_iparam_classname', 'classname', ('CIMClassName', 'str')),
+                       ('_iparam_instancename', 'instancename', ('CIMInstanceName',))):
+    paths = [k for k in kinds if k != 'str']
+    ok_types = ', '.join(['str'] * ('str' in kinds) + paths)
+    CONTRACTS.append(Contract(
+        K + fn,
+        params={arg: Union(Ref('CIMInstanceName'), Ref('CIMClassName'), Str, NoneT, Int), 'arg_name': Str, 'required': Bool},
+        callees=IPARAM_CALLEES,
+        ensures=[('NULL-only-for-NULL', f'(result is None) == (old({arg}) is None)'),
+                 ('a-local-name-without-host-and-namespace',
+                  'implies(result is not None, result.host is None and result.namespace is None)'),
+                 ('names-the-class-the-caller-named',
+                  f'implies(result is not None, result.classname == (old({arg}) if isinstance(old({arg}), str) '
+                  f'else old({arg}).classname))'),
+                 ('kind-of-name-kept',
+                  f'implies(isinstance(old({arg}), CIMInstanceName), isinstance(result, CIMInstanceName)) and '
+                  f'implies(isinstance(old({arg}), (CIMClassName, str)), isinstance(result, CIMClassName))'),
+                 ('the-callers-object-is-not-changed',
+                  f'implies(isinstance(old({arg}), (CIMClassName, CIMInstanceName)), result is not old({arg}) '
+                  f'and old({arg}).host == old(old({arg}).host) and old({arg}).namespace == old(old({arg}).namespace))')],
+        raises={'TypeError': Raises(post=[('only-for-a-wrong-type-or-a-missing-required-argument',
+                                           f'not isinstance(old({arg}), ({ok_types},)) and '
+                                           f'(required or old({arg}) is not None)')])},
+    ))
+CONTRACTS.append(Contract(
+    'pywbem/_cim_operations.py::_iparam_propertylist',
+    params={'property_list': Union(ListOf('str'), Str, NoneT, Int)},
+    ensures=[('NULL-stays-NULL', '(result is None) == (old(property_list) is None)'),
+             ('a-single-name-becomes-a-list-of-one', "implies(isinstance(old(property_list), str), result == [old(property_list)])"),
+             ('a-list-is-passed-unchanged', 'implies(isinstance(old(property_list), list), result == old(property_list))')],
+    raises={'TypeError': Raises(post=[('only-for-a-wrong-type', 'isinstance(old(property_list), int)')])},
+))
